@@ -255,6 +255,11 @@ class DictReader:
         """
         self.parsed_doc = parsed_doc
 
+        if not isinstance(self.parsed_doc, dict):
+            msg = "Invalid odML document: expected a dictionary, got '%s'" % \
+                  type(self.parsed_doc).__name__
+            raise ParserException(msg)
+
         # Parse only odML documents of supported format versions.
         if 'Document' not in self.parsed_doc:
             msg = "Missing root element 'Document'"
@@ -272,6 +277,9 @@ class DictReader:
 
         self.parsed_doc = self.parsed_doc['Document']
 
+        if not isinstance(self.parsed_doc, dict):
+            raise ParserException("Invalid odML document: 'Document' is not a dictionary")
+
         doc_attrs = {}
         doc_secs = []
 
@@ -283,9 +291,18 @@ class DictReader:
                 # Make sure to always use the correct odml format attribute name
                 doc_attrs[odmlfmt.Document.map(attr)] = self.parsed_doc[i]
 
-        doc = odmlfmt.Document.create(**doc_attrs)
+        try:
+            doc = odmlfmt.Document.create(**doc_attrs)
+        except Exception as exc:
+            msg = "Document attributes not valid (%s)\n  %s" % (doc_attrs, str(exc))
+            self.error(msg)
+            doc = odmlfmt.Document.create()
+
         for sec in doc_secs:
-            doc.append(sec)
+            try:
+                doc.append(sec)
+            except (KeyError, ValueError) as exc:
+                self.error("Section not added (%s)\n  %s" % (sec, str(exc)))
 
         return doc
 
@@ -299,7 +316,15 @@ class DictReader:
         """
         odml_sections = []
 
+        if not isinstance(section_list, list):
+            self.error("Invalid 'sections' entry, expected a list: '%s'" % str(section_list))
+            return odml_sections
+
         for section in section_list:
+            if not isinstance(section, dict):
+                self.error("Invalid Section entry, expected a dictionary: '%s'" % str(section))
+                continue
+
             sec_attrs = {}
             children_secs = []
             sec_props = []
@@ -316,6 +341,8 @@ class DictReader:
                     content = section[attr]
                     if attr.endswith("_cardinality"):
                         content = parse_cardinality(content)
+                    elif attr == "name" and content is not None and not isinstance(content, str):
+                        content = str(content)
 
                     # Make sure to always use the correct odml format attribute name
                     sec_attrs[odmlfmt.Section.map(attr)] = content
@@ -346,7 +373,15 @@ class DictReader:
         """
         odml_props = []
 
+        if not isinstance(props_list, list):
+            self.error("Invalid 'properties' entry, expected a list: '%s'" % str(props_list))
+            return odml_props
+
         for _property in props_list:
+            if not isinstance(_property, dict):
+                self.error("Invalid Property entry, expected a dictionary: '%s'" % str(_property))
+                continue
+
             prop_attrs = {}
 
             for i in _property:
@@ -357,6 +392,8 @@ class DictReader:
                     # Now convert cardinality lists back to tuples.
                     if attr.endswith("_cardinality"):
                         content = parse_cardinality(content)
+                    elif attr == "name" and content is not None and not isinstance(content, str):
+                        content = str(content)
 
                     # Make sure to always use the correct odml format attribute name
                     prop_attrs[odmlfmt.Property.map(attr)] = content
